@@ -143,6 +143,29 @@ func c06LockKind(fd *ast.FuncDecl) string {
 	return ""
 }
 
+// c06LockedSection: the calls of fd (source order) from its first Lock/RLock call up to — not
+// including — the first NON-deferred Unlock/RUnlock call; with a deferred unlock that is the rest
+// of the function. This is what runs inside the critical section the function opens first.
+func c06LockedSection(fd *ast.FuncDecl) []string {
+	var out []string
+	in := false
+	for _, c := range CallSeq(fd) {
+		plain := !strings.HasPrefix(c, "defer:") && !strings.HasPrefix(c, "λ:")
+		if !in {
+			if plain && (strings.HasSuffix(c, ".Lock") || strings.HasSuffix(c, ".RLock")) {
+				in = true
+				out = append(out, c)
+			}
+			continue
+		}
+		if plain && (strings.HasSuffix(c, ".Unlock") || strings.HasSuffix(c, ".RUnlock")) {
+			break
+		}
+		out = append(out, c)
+	}
+	return out
+}
+
 func init() {
 	Register(Fact{Module: "C06", Gen: func(repo string) (string, error) {
 		_, cf, err := ParseFile(repo, "pkg/queue/constants.go")
@@ -252,6 +275,15 @@ func init() {
 		fmt.Fprintf(&sb, "def ackLock : String := %q\n", c06LockKind(ack))
 		fmt.Fprintf(&sb, "def setConsumedLock : String := %q\n", c06LockKind(FindFunc(cg, "consumerGroup", "SetConsumedSeq")))
 		fmt.Fprintf(&sb, "def setSeqLock : String := %q\n", c06LockKind(FindFunc(cg, "consumerGroup", "SetSeq")))
+		// critical sections: which calls run inside the lock a method opens first
+		goc := FindFunc(fo, "fanOutQueue", "GetOrCreateConsumerGroup")
+		fmt.Fprintf(&sb, "\ndef getOrCreateLock : String := %q\n", c06LockKind(goc))
+		fmt.Fprintf(&sb, "def syncLock : String := %q\n", c06LockKind(syn))
+		fmt.Fprintf(&sb, "def stopGroupLock : String := %q\n", c06LockKind(FindFunc(fo, "fanOutQueue", "StopConsumerGroup")))
+		sb.WriteString("def getOrCreateLockedCalls : List String := " + LeanStrList(c06LockedSection(goc)) + "\n")
+		sb.WriteString("def syncLockedCalls : List String := " + LeanStrList(c06LockedSection(syn)) + "\n")
+		sb.WriteString("def ackLockedCalls : List String := " + LeanStrList(c06LockedSection(ack)) + "\n")
+		sb.WriteString("def consumeLockedCalls : List String := " + LeanStrList(c06LockedSection(FindFunc(cg, "consumerGroup", "consume"))) + "\n")
 		return sb.String(), nil
 	}})
 }
